@@ -1,3 +1,5 @@
+//go:build verif
+
 package zz_verif
 
 import (
@@ -32,3 +34,5 @@ func H_fetch() {
 	vx.Assert("C11", len(got) == len(want), "no entry returned twice")
 	vx.Cover("fetch-done")
 }
+
+var _ = register("H_fetch", H_fetch)
